@@ -1,8 +1,75 @@
-# Table of claimed checks (executed by gen_manifest.py). Properties without an entry are listed as not applicable / pending.
+# Table of claimed checks (executed by gen_manifest.py). Properties without an entry are listed as not applicable.
+SAMPLING = " Sampling, not proof: a clean batch says no counterexample exists among the explored histories."
+
+add("C01",
+    "Seeded search over operator and epoch histories: every genome produced by construction, by each of the 14 operators (applied through the guarded export file against the real population or the reference registry, results re-entering the operand pool) and by every epoch turnover of the simulated world is checked against the full well-formedness predicate and expressed with Genesis." + SAMPLING,
+    "Trusts the well-formedness predicate in sim/sim/canon.go; start genomes are hand-built, shipped or NewPopulationRandom ones with at least one gene (gene-less random genomes are skipped as outside the precondition); the gene-less single-point child of unrelated random parents is known finding F9.",
+    TECH + "; oracle = well-formedness predicate after every operator call and every epoch", "DESIGN.md 5.1")
 add("C02",
-    "Seeded search over simulated worlds: after every NextEpoch of every run the partition/size/id/age oracle is evaluated against the real population (both executors; the parallel one under the tape-driven scheduler). Sampling, not proof: a clean batch says no counterexample exists among the explored histories.",
+    "Seeded search over simulated worlds: after every NextEpoch of every run the partition/size/id/age oracle is evaluated against the real population (both executors; the parallel one under the tape-driven scheduler)." + SAMPLING,
     "Trusts the harness oracle (sim/sim/prop_c02.go) and that the option swarm covers the documented ranges; fitness is finite and non-negative by construction; worlds whose constructor yields a gene-less random genome are skipped as outside the precondition.",
     TECH + "; oracle = species-partition ledger across the whole run", "DESIGN.md 5.2")
-for p in ["C01","C03","C04","C05","C06","C07","C08","C09","C10","C11","C12","C13","C14","C15","C16","C17","C19","C20"]:
+add("C03",
+    "Seeded search over whole population lives: a ledger innovation number -> (source, target, recurrence) and node id -> role over every gene of every organism that ever lived in the run, freshness of numbers per generation, same-generation reuse under the sequential executor (observed through twin mutations against the live registry), and the forgetting of the innovation record at the end of the generation." + SAMPLING,
+    "Trusts the ledger in sim/sim/ledger.go and the read-only getters of the guarded export file; worlds that end in an epoch error are abandoned (that is C02's verdict).",
+    TECH + "; oracle = cross-generation innovation ledger", "DESIGN.md 5.3")
+add("C04",
+    "Seeded search over parent pairs taken from living simulated populations (common ancestry, interspecies pairs, one-sided disabled genes, all fitness orderings with ties): every child of the three crossovers is compared with the alignment rules computed by set arithmetic on innovation numbers; the crossover's coin flips sit behind the RNG seam so a failing mating replays from the tape." + SAMPLING,
+    "Trusts the set-based alignment reference in sim/sim/prop_c04.go; the statement leaves the one-disabled-of-two case and the full fitness tie with equal gene counts open, and the oracle accepts every allowed outcome there.",
+    TECH + "; oracle = set-based alignment reference per mating", "DESIGN.md 5.4")
+add("C05",
+    "Seeded search over mutation histories on evolved genomes: a canonical before/after diff of every mutator call, judged against the documented effect (add-node, add-link, connect-sensors, weight/trait/toggle/re-enable), with the real population, an empty stub registry and stub registries preloaded with matching and near-miss innovation records." + SAMPLING,
+    "Trusts the diff oracle in sim/sim/prop_c05.go; what the statement does not constrain (the genome after a failed add-node) is recorded, not judged.",
+    TECH + "; oracle = canonical before/after diff against the operator contract", "DESIGN.md 5.5")
+add("C06",
+    "Seeded search over mutate-after-copy histories: duplicates of evolved, hand-built and modular genomes are compared bit for bit (except the id), searched for any shared pointer or backing array, and then either side is mutated by a drawn operator sequence while the other's canonical dump must stay identical; spawned populations are compared with their start genome." + SAMPLING,
+    "Trusts the canonical dump (floats as bit patterns) and the pointer walk in sim/sim/prop_c06.go.",
+    TECH + "; oracle = bit-exact canonical dump + aliasing walk", "DESIGN.md 5.6")
+add("C07",
+    "In-simulation monitor: pairs of genomes reached by simulated evolution (siblings, ancestors of earlier generations, duplicates, unrelated random genomes, synthetic prefixes and interleavings) under the swarm's coefficient sets; both methods are compared with a set-based reference distance, with each other, for symmetry, zero on self/duplicate, NaN and sign. The simulator is the state generator here; there is no schedule or fault axis in this statement." + SAMPLING,
+    "Trusts the set-based reference in sim/sim/prop_c07.go; relative tolerance 1e-9 for summation order.",
+    TECH + "; oracle = set-based reference distance on every sampled pair", "DESIGN.md 5.7")
+add("C08",
+    "Seeded search over arrival orders: at every speciate.begin observation point (construction, read-back, every turnover, direct calls with tape-permuted batches) the harness records the batch in arrival order and the representatives at that instant and afterwards replays the assignment step by step from the actual state: the chosen species must be a nearest one below the threshold, or a fresh one with a new id exactly when none is below." + SAMPLING,
+    "Trusts the stepwise oracle in sim/sim/prop_c08.go and the reference distance of C07 (a wrong distance that changes an assignment is also a C08 violation, as the statement says); ties and |d - threshold| <= 1e-9 accept either outcome.",
+    TECH + "; oracle = stepwise replay of the batch against the reference distance", "DESIGN.md 5.8")
+add("C09",
+    "Seeded search over fitness landscapes x species ages x option swarm: a pre-epoch snapshot, the epoch.prepared observation point and the post-epoch values give each organism's expected offspring, each species' quota, the parents left after culling and the babies produced; they are compared with the shared-fitness apportionment computed independently (carry in species order, make-up offspring, totals after stealing and delta coding)." + SAMPLING,
+    "Trusts the apportionment reference in sim/sim/prop_c09.go; landscapes have at least one positive value; the penalty/boost constants are not mirrored (only uniformity within a species and sharing by size are required).",
+    TECH + "; oracle = independent apportionment reference at the epoch.prepared point", "DESIGN.md 5.9")
+add("C10",
+    "Seeded search over epoch histories long enough for champions to carry disabled, recurrent and re-enabled genes: for every species whose final quota exceeds five the next generation must contain a genome whose canonical dump (minus id) equals the pre-epoch dump of that species' fittest organism; with and without stolen babies and delta coding." + SAMPLING,
+    "Trusts the canonical dump and the quota read from the old species object; fitness values are distinct and positive by construction of the landscape.",
+    TECH + "; oracle = pre-epoch champion dump searched in the next generation", "DESIGN.md 5.10")
+add("C11",
+    "Seeded search over mutation histories between expression and use: a reference expression of every genome (nodes, enabled genes, modules) is compared with Genesis and with the graph view over all ordered pairs of present and absent ids; after every epoch and every operator step each organism's cached phenotype must express its current genome." + SAMPLING,
+    "Trusts the reference expression in sim/sim/netref.go.",
+    TECH + "; oracle = reference expression vs Genesis and the cached phenotype after every step", "DESIGN.md 5.11")
+add("C12",
+    "In-simulation monitor: every feed-forward phenotype reached by simulated evolution (activation swarm, 0-2 bias nodes, skip connections) is evaluated on random input vectors by a topological reference evaluator and compared (1e-9) with the standard solver and the fast solver's forward, recursive and relaxation modes at L..L+3 steps. The simulator is the state generator here; there is no schedule or fault axis in this statement." + SAMPLING,
+    "Trusts the topological evaluator in sim/sim/netref.go and the library's scalar activation functions as primitives; networks with a neuron unreachable from a sensor are skipped and counted.",
+    TECH + "; oracle = topological reference evaluator", "DESIGN.md 5.12")
+add("C13",
+    "Seeded search over activation histories with Flush as a restart that keeps only durable state: after a drawn history (loads, activations including aborted ones, forward/recursive/relax, depth queries including capped ones) and a Flush, a drawn sequence must produce bit-identical outputs and errors to the same sequence on a freshly built instance; both solvers, feed-forward, recurrent and self-loop topologies." + SAMPLING,
+    "Trusts bit equality of float64 outputs between two instances running the same code in the same order.",
+    TECH + "; oracle = twin fresh instance, bit-exact", "DESIGN.md 5.13")
+add("C14",
+    "Seeded search over depth-query histories (capped, uncapped, interleaved with activations, the cap-exceeded error as the injected fault): DAG answers equal a DP longest path, cyclic ones terminate within [0, nodes], capped ones follow the cap rule, and every answer equals the answer on a fresh network; a stack overflow or hang of the worker inside a C14 step is reported as non-termination." + SAMPLING,
+    "Trusts the DP longest-path reference in sim/sim/netref.go; networks are kept at <= 14 nodes so that the library's own exponential search stays cheap.",
+    TECH + "; oracle = DP longest path + fresh-network twin; worker crash/hang = non-termination", "DESIGN.md 5.14")
+add("C16",
+    "Seeded search over goroutine interleavings of the parallel executor: real goroutines are parked and released one at a time at guarded yield points by a tape-driven scheduler whose own state is invisible to the race detector (//go:norace, no channels/atomics), the worker is built with -race, and after every epoch the C01/C02/C03 oracles run; a race report or an oracle failure is a violation with the tape (world + schedule) as replay." + SAMPLING,
+    "Trusts the Go race detector for accesses that are unordered by the library's own synchronisation; interleavings are explored at the granularity of the yield points (registry calls, per-offspring loop, goroutine begin/end), finer tearing is covered only through the race detector.",
+    TECH + "; oracle = Go race detector under the tape-driven scheduler + population oracles", "DESIGN.md 5.16", )
+add("C19",
+    "Seeded search over simulated experiments (complete, solved early, cut short by an injected fault): every Experiment/Trial aggregate is recomputed from the recorded generations by a reference and every Floats accessor is evaluated on every recorded series, on tape-chosen permutations and prefixes including the empty one, against textbook definitions; panics are violations." + SAMPLING,
+    "Trusts the textbook statistics in sim/sim/prop_c19.go (empirical quantile x_(ceil(np))).",
+    TECH + "; oracle = textbook statistics and aggregates recomputed from the recorded generations", "DESIGN.md 5.19")
+add("C20",
+    "Fault enumeration over the trial/generation protocol: the real Experiment.Execute runs with a scripted evaluator and observer writing one sequence-numbered log under a fault script (evaluator error; cancellation at evaluator entry, by a timer at a simulated instant, at exit, inside each observer callback, at epoch.prepared, at the k-th offspring, at the speciation of the babies); the log must be a prefix of the protocol's ideal sequence, complete without fault, nothing after the stop, the injected error returned. A share of the runs sweeps every single-fault point of its shape (complete for that shape); multi-fault scripts are sampled.",
+    "Trusts the protocol state machine in sim/sim/prop_c20.go; after a cancellation the observer may still learn that the next trial started (accepted as a prefix of the ideal sequence).",
+    TECH + "; oracle = protocol state machine over the recorded event history; single-fault sweep per shape", "DESIGN.md 5.20", category="fault_enumeration")
+
+for p in ["C15","C17"]:
     if p not in CHECKS:
         pending(p)
